@@ -13,6 +13,8 @@ Event tokens (same text goes to the Lean driver, see lean/PyatvModel/C10/Driver.
   p.<proto>.<val> post_update | s start | t stop | k.<proto>.<mask> takeover | r release
   v./o./f.<proto>.<val> dispatch Volume / OutputDevices / KeyboardFocus | d drain
   a.<proto>.<0|1> the updater's own `active` flag turns off / on by itself
+  u.<op>.<val> user-initiated operation through the facade: v set_volume(domain level) | x set_volume(33.33/80/100)
+               | u volume_up | w volume_down | o/g/h set/add/remove_output_devices | t text_set/append/clear
 Mode D = the loop drains after every event (the property's histories); mode U = drains only
 at `d` (finer scheduling granularity; model/implementation correspondence and the
 scheduling-independent part of the oracle only).
@@ -31,6 +33,9 @@ RULE = ("suite A: every history of exactly L events over {post p v (p registered
         "interleaved, each device compared with the single-device model on its own events (Lean: devices_independent); "
         "chunk-wise evaluation that stops generating once a chunk produced an oracle failure; pyatv loggers at DEBUG "
         "(runner default) except every second chunk of suites A/B at WARNING; "
+        "suite U: user-initiated operations (set_volume incl. off-grid levels, volume_up/down, set/add/remove_output_devices, "
+        "text_*) interleaved with the device's reports, the report after an operation being the requested, another or the "
+        "unchanged value (the fake protocol only records the request), exhaustive short histories; "
         "suite F: updaters whose own `active` flag turns off/on by itself (independently of start/stop), exhaustive "
         "histories for one and two protocols incl. takeover; suite D: for every Playing domain (each constructor field varied alone over three values, once without and once "
         "with an explicit hash shared by the three states; hash alone; colliding calculated hashes; unset/empty; mixed) "
@@ -51,6 +56,10 @@ ASSUMPTIONS = [
     "decisions do not depend on it on the pinned code (Lean: selfact_irrelevant); the oracle keeps demanding nothing after "
     "stop(), only from the serving protocol, only on change, and does not demand delivery from an updater that reports "
     "itself inactive",
+    "user-initiated operations are relayed to a protocol instance that records the request and applies nothing by "
+    "itself; what the device reports afterwards is a separate scripted event. The oracle applies to the reports only "
+    "(only on change, (old,new) = what was reported before / now); on the pinned code the operations touch no listener "
+    "state (Lean: userop_irrelevant)",
     "the user's listener objects stay alive (StateProducer keeps weak references); they record every call and, when "
     "scripted, raise on their k-th call after recording it — the exception goes to the loop's exception handler and, "
     "as on the pinned code (value stored / _previous_state set before the listener is called), changes nothing in the "
@@ -123,14 +132,59 @@ class _Env:
                 self._active = active
 
         class Kbd(interface.Keyboard):
+            """Protocol keyboard: accepts the user's text operations, reports nothing by itself."""
+
+            def __init__(self):
+                super().__init__()
+                self.requests = []
+
             @property
             def text_focus_state(self):
                 return const.KeyboardFocusState.Unknown
 
+            async def text_set(self, text):
+                self.requests.append(("text_set", text))
+
+            async def text_append(self, text):
+                self.requests.append(("text_append", text))
+
+            async def text_clear(self):
+                self.requests.append(("text_clear",))
+
         class Aud(interface.Audio):
+            """Protocol audio of a device that does not (necessarily) apply what is requested: it only
+            records the request; what the device then *reports* is scripted separately (`v.`/`o.` events:
+            the requested value, another one - rounding, a device-side limit - or the unchanged one)."""
+
+            def __init__(self):
+                super().__init__()
+                self.requests = []
+
             @property
             def volume(self):
                 return 0.0
+
+            async def set_volume(self, level):
+                self.requests.append(("set_volume", level))
+
+            async def volume_up(self):
+                self.requests.append(("volume_up",))
+
+            async def volume_down(self):
+                self.requests.append(("volume_down",))
+
+            @property
+            def output_devices(self):
+                return []
+
+            async def add_output_devices(self, *devices):
+                self.requests.append(("add_output_devices", devices))
+
+            async def remove_output_devices(self, *devices):
+                self.requests.append(("remove_output_devices", devices))
+
+            async def set_output_devices(self, *devices):
+                self.requests.append(("set_output_devices", devices))
 
         self.Updater, self.Kbd, self.Aud = Updater, Kbd, Aud
         self.volumes = [0.0, 30.0, 60.0]
@@ -286,6 +340,7 @@ class _World:
         self.updaters = {}
         self.dispatchers = {}
         self.handles = []
+        self.userop_errors = 0
         self.cores = {}
 
 
@@ -425,6 +480,8 @@ class _Device:
                 w.dispatchers[int(f[1])].dispatch(us.KeyboardFocus, env.focus[int(f[2])])
             elif f[0] == "a":
                 w.updaters[int(f[1])].turn(f[2] == "1")
+            elif f[0] == "u":
+                await self.user_op(f[1], int(f[2]))
             elif f[0] == "d":
                 await _settle()
             else:
@@ -435,6 +492,35 @@ class _Device:
             w.errors.append((idx, type(exc).__name__))
         if self.done:
             w.idx = len(self.toks)      # anything arriving from now on is recorded past the end
+
+    async def user_op(self, op, v):
+        """A user-initiated operation through the public facade (relayed to the serving protocol's
+        instance).  Its own outcome is not part of the property: pyatv errors (nothing implements
+        it, blocked, ...) are counted, not compared."""
+        env, audio, kbd = self.env, self.audio, self.kbd
+        ids = [d.identifier for d in env.devices(max(v, 1))]
+        try:
+            if op == "v":
+                await audio.set_volume(env.volumes[v])
+            elif op == "x":
+                await audio.set_volume([33.33, 80.0, 100.0][v])     # levels a device rounds / limits
+            elif op == "u":
+                await audio.volume_up()
+            elif op == "w":
+                await audio.volume_down()
+            elif op == "o":
+                await audio.set_output_devices(*ids)
+            elif op == "g":
+                await audio.add_output_devices(*ids)
+            elif op == "h":
+                await audio.remove_output_devices(*ids)
+            elif op == "t":
+                await [kbd.text_set, kbd.text_append][v % 2]("abc") if v < 2 else await kbd.text_clear()
+            else:
+                raise ValueError(op)
+        except (env.exceptions.NotSupportedError, env.exceptions.ProtocolError, env.exceptions.BlockedStateError,
+                env.exceptions.InvalidStateError):
+            self.w.userop_errors += 1
 
     def result(self):
         env, w, push, audio, kbd = self.env, self.w, self.push, self.audio, self.kbd
@@ -776,6 +862,22 @@ def suite_m(ctx, env, rng):
         yield from group_cases(members, schedule)
 
 
+def suite_u(ctx, env):
+    """User-initiated operations (set_volume with on- and off-grid levels, volume_up/down,
+    set/add/remove_output_devices, text_*) interleaved with the device's reports, where the value
+    reported afterwards is the requested one, another one or the unchanged one: exhaustive
+    histories at the property's granularity."""
+    length = ctx.scale(4, 5)
+    dom = env.domain_names[0]
+    for alpha, reg_k in (
+            (["v.0.0", "v.0.1", "v.0.2", "u.v.0", "u.v.1", "u.v.2", "u.x.1", "u.u.0", "u.w.0"], [0]),
+            (["o.0.0", "o.0.1", "o.0.2", "u.o.1", "u.o.2", "u.g.2", "u.h.1"], [0]),
+            (["f.0.1", "f.0.2", "f.4.1", "u.t.0", "u.t.2", "v.4.1", "u.v.1"], [0, 4])):
+        for t in itertools.product(alpha, repeat=length):
+            if any(x.startswith("u.") for x in t):
+                yield ("D", [0], reg_k, dom, list(t), "")
+
+
 def random_raises(rng):
     if rng.random() < 0.6:
         return ""
@@ -805,7 +907,9 @@ def random_case(rng, maxlen, env):
             toks.append("s")
         elif r < 0.70:
             toks.append("t")
-        elif r < 0.74:
+        elif r < 0.72:
+            toks.append(f"u.{rng.choice('vvxuwoght')}.{rng.randrange(3)}")
+        elif r < 0.75:
             toks.append(f"a.{rng.choice(reg_p) if rng.random() < 0.85 else rng.randrange(5)}.{rng.choice([0, 0, 1])}")
         elif r < 0.83:
             p = rng.choice(reg_p + reg_k) if rng.random() < 0.8 else rng.randrange(5)
@@ -830,6 +934,8 @@ WITNESSES = [
     ("D", [0, 4], [], "title", "s p.0.1 k.4.1 p.0.2 r p.0.1".split(), ""),
     # an updater that turned inactive by itself before stop(): nothing after stop(), also not as takeover holder
     ("D", [0, 4], [], "title", "s a.4.0 t k.4.1 p.4.1 p.0.2 r a.0.0 s p.0.1 t p.0.2".split(), ""),
+    # the user asks for a level the device does not apply; the device reports its unchanged volume again
+    ("D", [0], [0], "title", "v.0.1 u.v.2 v.0.1 u.x.0 v.0.1 v.0.2 o.0.1 u.o.2 o.0.1".split(), ""),
     # every listener raises on its first call; later notifications unaffected
     ("D", [0], [0], "title+hash", "s p.0.1 p.0.2 v.0.1 v.0.1 v.0.2 o.0.1 o.0.2 f.0.1 f.0.2".split(), "P1,V1,O1,F1"),
 ]
@@ -1000,6 +1106,7 @@ def run(ctx, only=None):
         ("M", itertools.chain(corpus_cases(), suite_m(ctx, env, ctx.rng.fork("suite-m"))), 400),
         ("D", suite_d(ctx, env), 2000),
         ("E", suite_e(ctx, env), 2000),
+        ("U", suite_u(ctx, env), 15000),
         ("F", suite_f(ctx, env), 15000),
         ("A", suite_a(ctx, env), 15000),
         ("B", suite_b(ctx, env), 15000),
@@ -1050,12 +1157,14 @@ def widen(ctx):
     ctx.widened = False
     a_cases = list(suite_a(ctx, env))
     f_cases = list(suite_f(ctx, env))
+    u_cases = list(suite_u(ctx, env))
     ctx.widened = True
     rng = ctx.rng.fork("suite-c-widened")
     _drive(ctx, env, [
         ("M", itertools.chain(WITNESSES, corpus_cases(), suite_m(ctx, env, ctx.rng.fork("suite-m-widened"))), 400),
         ("D", suite_d(ctx, env), 2000),
         ("E", suite_e(ctx, env), 2000),
+        ("U", u_cases, 15000),
         ("F", f_cases, 15000),
         ("A", a_cases, 15000),
         ("B", suite_b(ctx, env), 15000),
